@@ -253,6 +253,7 @@ class Typist(object):
         self.stalled = 0
         self.quit_sent = False
         self.breaks_sent = 0
+        self.waiting = 0
 
     def _impl(self):
         return self.d.s._impl
@@ -296,11 +297,19 @@ class Typist(object):
                     w.inputs.pending.append(K.sig_key(ch, None, ()))
                 return
         else:
-            if item is not None and item['t'] == 'input' and self.idle >= self.input_idle:
-                self.pos += 1
-                self.idle = 0
-                w.inputs.pending.append(K.sig_stream(item['text'] + u'\r'))
-                return
+            if item is not None and item['t'] == 'input':
+                # the user does not type ahead: the answer comes a few polls after the program has asked
+                # (so the statement really waits, and a suspension can land inside it)
+                if self._impl().interpreter.input_mode:
+                    self.waiting += 1
+                    if self.waiting >= self.input_idle:
+                        self.pos += 1
+                        self.idle = 0
+                        self.waiting = 0
+                        w.inputs.pending.append(K.sig_stream(item['text'] + u'\r'))
+                        return
+                else:
+                    self.waiting = 0
             if self.idle >= self.stall_polls and w.nothing_scheduled:
                 # blocked on input that will never come (or a busy loop): Ctrl-Break
                 self.idle = 0
